@@ -2,7 +2,7 @@
    Statements only, each closed by [exact]; the proofs are in Proofs/LEProofs.v, ExeNoPanic.v,
    ElfProofs.v, PeProofs.v.  Model: Model/LE.v, Elf.v, Pe.v (exe_utils.rs on byte lists). *)
 From RJ Require Import Base.Prelude Model.LE Model.Elf Model.Pe Model.ExeWitness Gen.Facts.
-From RJ Require Import Proofs.LEProofs Proofs.ExeLemmas Proofs.ExeNoPanic Proofs.ExeWitnessProofs Proofs.ElfProofs.
+From RJ Require Import Proofs.LEProofs Proofs.ExeLemmas Proofs.ExeNoPanic Proofs.ExeWitnessProofs Proofs.ElfProofs Proofs.PeProofs Proofs.ExeExamples.
 From Coq Require Import String.
 Local Open Scope N_scope.
 
@@ -111,6 +111,59 @@ Theorem C19_elf_preserves_partial : forall (m : mode) (e name p e' : list byte),
                subN e' (shoff + k + lenN p + o) n = subN e (shoff + o) n).
 Proof. exact elf_preserves. Qed.
 
+(* ---------------------------------------------------------------------------------------------
+   PE.  [wf_pe e]: e_lfanew >= 64 (the PE header does not overlap the DOS header's e_lfanew field) and
+   SizeOfOptionalHeader >= 64 (SizeOfImage / SizeOfHeaders lie inside the optional header, before the
+   section headers).  Everything else is implied by [add_pe .. = Ok _] (signature, at least one
+   section, non-zero alignments, room for the new header, sizes representable in 32 bits).
+   [pe_has_section]: some section header's 8-byte name field reads as [name] (first match wins).
+   One theorem covers both layouts - a gap of >= 40 bytes after the section headers, or the contents
+   moved up by align(40, FileAlignment) - and every payload size, including the empty payload. *)
+Theorem C19_pe_roundtrip : forall (m m' : mode) (e name p e' : list byte),
+  wf_pe e -> ~ pe_has_section e name -> pe_name_ok name ->
+  add_pe m e name p = Ok e' ->
+  exists pad, extract_pe m' e' name = Ok (p ++ zerosN pad) /\ pad < pe_fa e.
+Proof. exact pe_roundtrip. Qed.
+
+(* Every old section header still points at the same bytes: there is a [shift] (0 in the gap layout, a
+   multiple of FileAlignment >= 40 otherwise) such that every PointerToRawData grew by [shift], every
+   other byte of every old section header is unchanged, every byte of the file from the end of the
+   section headers on (from 40 bytes later in the gap layout, where the new header takes the place of
+   padding) is found [shift] bytes later, and below the section headers only NumberOfSections,
+   SizeOfImage and SizeOfHeaders change.  Hence a section whose raw data lies behind the headers (as
+   in every valid PE: PointerToRawData >= SizeOfHeaders) is found unaltered at its new
+   PointerToRawData.  Not claimed: the Windows loader's view (SizeOfImage / VirtualAddress of the new
+   section are computed by the model exactly as by the code, but no loader model exists here). *)
+Theorem C19_pe_sections : forall (m : mode) (e name p e' : list byte),
+  wf_pe e -> add_pe m e name p = Ok e' ->
+  let fh := pe_fh e in let oh := pe_oh e in let sh := pe_sh e in let n := pe_n e in let hend := pe_hend e in
+  exists shift, (shift = 0 \/ 40 <= shift) /\
+  (forall j, j < n -> fieldN e' (sh + j * 40 + 20) 4 = pe_ptr e j + shift) /\
+  (forall j x k, j < n -> x + k <= 20 \/ (24 <= x /\ x + k <= 40) -> subN e' (sh + j * 40 + x) k = subN e (sh + j * 40 + x) k) /\
+  (forall o k, hend + (if shift =? 0 then 40 else 0) <= o -> o + k <= lenN e -> subN e' (o + shift) k = subN e o k) /\
+  (forall o k, o + k <= sh -> (o + k <= fh + 2 \/ fh + 4 <= o) -> (o + k <= oh + 56 \/ oh + 64 <= o) -> subN e' o k = subN e o k) /\
+  fieldN e' (fh + 2) 2 = n + 1.
+Proof. exact pe_sections. Qed.
+
+(* ---------------------------------------------------------------------------------------------
+   Non-vacuity: the premises hold for concrete small files, both PE layouts occur, and the
+   functions really produce / read back something. *)
+Example C19_example_elf :
+  wf_elf w_elf_ok /\ ~ has_section w_elf_ok w_name /\ name_ok w_name /\
+  exists e', add_elf Debug w_elf_ok w_name w_abc = Ok e' /\ extract_elf Release e' w_name = Ok w_abc /\
+             lenN e' = lenN w_elf_ok + 9 + 3 + 64.
+Proof. exact example_elf. Qed.
+
+Example C19_example_pe :
+  wf_pe w_pe_ok /\ ~ pe_has_section w_pe_ok w_name /\ wf_pe w_pe16_ok /\ ~ pe_has_section w_pe16_ok w_name /\
+  (exists e', add_pe Debug w_pe_ok w_name w_abc = Ok e' /\ lenN e' = lenN w_pe_ok + 512 /\
+              extract_pe Debug e' w_name = Ok (w_abc ++ zerosN 509)) /\
+  (exists e', add_pe Debug w_pe16_ok w_name [] = Ok e' /\ lenN e' = lenN w_pe16_ok + 48 /\
+              extract_pe Debug e' w_name = Ok []).
+Proof. exact example_pe. Qed.
+
 Print Assumptions C19_no_panic.
 Print Assumptions C19_elf_roundtrip.
+Print Assumptions C19_pe_roundtrip.
+Print Assumptions C19_pe_sections.
 Print Assumptions C19_no_panic_refuted.
